@@ -7,6 +7,7 @@ import (
 
 	"github.com/ipfs/go-graphsync"
 	"github.com/ipfs/go-graphsync/linktracker"
+	"github.com/ipfs/go-graphsync/verifhook"
 )
 
 type peerLinkTracker struct {
@@ -86,6 +87,9 @@ func (prs *peerLinkTracker) FinishTracking(requestID graphsync.RequestID) bool {
 	}
 	delete(prs.blockSentCount, requestID)
 	delete(prs.skipFirstBlocks, requestID)
+	if verifhook.Enabled {
+		verifhook.Observe("peerlinktracker.finishedTracking", requestID.String(), prs)
+	}
 	return allBlocks
 }
 
